@@ -440,8 +440,8 @@ Proof.
   { pose proof (put_conn_ok c conn_new s Hs conn_new_ok) as Hnew.
     destruct (c_prepare x); cbn [negb]; [|fin Hnew].
     destruct (c_error x); [fin Hnew|].
-    destruct (c_queue x) as [|b q] eqn:Eq; [fin Hnew|].
     destruct (existsb (fun kv => snd kv) (c_watch x)); [fin Hnew|].
+    destruct (c_queue x) as [|b q] eqn:Eq; [fin Hnew|].
     destruct (run_queue (b :: q) now (s_db s)) as [[qa d']|] eqn:Er; [|discriminate].
     intro H. inversion H; subst. split.
     - unfold one_value. cbn [consume]. change (1 <=? 0) with false. cbv iota.
